@@ -242,6 +242,8 @@ NP_CONST = {"numpy.pi": "pi", "math.pi": "pi", "numpy.inf": "inf", "math.inf": "
 
 def get_attr(interp, o, attr, st, node):
     if is_opaque(o): return type(o)(o.why + "." + attr)
+    if type(o).__name__ == "QROf" and attr == "T":
+        return ("QT", o)
     if isinstance(o, PV):
         return pv_apply(lambda x: get_attr(interp, x, attr, st, node), o)
     if isinstance(o, Lib):
